@@ -152,7 +152,21 @@ func vpRefHas(ref []int, k int) bool {
 
 func vpC13Op(kind int, col CollectionInterface, pool []Item, ref []int) []int {
 	k := vpChoice(len(pool))
-	switch vpChoice(3) {
+	nops := 3
+	if vpC13Many {
+		nops = 4
+	}
+	switch vpChoice(nops) {
+	case 3: // one call with several items, some of them nil or already present: each one is treated on its own
+		k2 := vpChoice(len(pool))
+		err := col.Append(pool[k], nil, pool[k2], pool[k])
+		vpAssert("append-many/err", err == nil)
+		if !vpRefHas(ref, k) {
+			ref = append(ref, k)
+		}
+		if !vpRefHas(ref, k2) {
+			ref = append(ref, k2)
+		}
 	case 0:
 		err := col.Append(pool[k])
 		vpAssert("append/err", err == nil)
@@ -174,6 +188,9 @@ func vpC13Op(kind int, col CollectionInterface, pool []Item, ref []int) []int {
 	}
 	return ref
 }
+
+// vpC13Many: the inductive-step harnesses also offer the several-items-in-one-call Append
+var vpC13Many bool
 
 // history from the empty collection
 func vpC13Hist(kind, h, npool, shapes int) {
@@ -217,22 +234,25 @@ func vpC13Step(kind, maxPre, shapes int) {
 		c.OrderedItems = pre
 	}
 	vpC13Agree("pre", kind, col, pool, ref)
+	vpC13Many = true
 	ref = vpC13Op(kind, col, pool, ref)
+	vpC13Many = false
 	vpC13Agree("post", kind, col, pool, ref)
 	vpReach("end")
 }
 
-func vpH_C13_hist_items()  { vpC13Hist(0, 3, 2, 2) }
-func vpH_C13_hist_iris()   { vpC13Hist(1, 3, 2, 3) }
-func vpH_C13_hist_coll()   { vpC13Hist(2, 2, 2, 2) }
-func vpH_C13_step_items()  { vpC13Step(0, 2, 2) }
-func vpH_C13_step_iris()   { vpC13Step(1, 2, 3) }
-func vpH_C13_step_coll()   { vpC13Step(2, 2, 2) }
-func vpH_C13_step_ocoll()  { vpC13Step(3, 2, 2) }
-func vpH_C13_step_page()   { vpC13Step(4, 2, 2) }
-func vpH_C13_step_opage()  { vpC13Step(5, 2, 2) }
+func vpH_C13_hist_items()      { vpC13Hist(0, 3, 2, 2) }
+func vpH_C13_hist_iris()       { vpC13Hist(1, 3, 2, 3) }
+func vpH_C13_hist_coll()       { vpC13Hist(2, 2, 2, 2) }
+func vpH_C13_step_items()      { vpC13Step(0, 2, 2) }
+func vpH_C13_step_iris()       { vpC13Step(1, 2, 3) }
+func vpH_C13_step_coll()       { vpC13Step(2, 2, 2) }
+func vpH_C13_step_ocoll()      { vpC13Step(3, 2, 2) }
+func vpH_C13_step_page()       { vpC13Step(4, 2, 2) }
+func vpH_C13_step_opage()      { vpC13Step(5, 2, 2) }
 func vpH_C13_step_rich_items() { vpC13Step(0, 1, -6) }
 func vpH_C13_step_rich_ocoll() { vpC13Step(3, 1, -6) }
+
 // ids that differ only in host, only in port, or only in a query value
 func vpH_C13_step_id_forms() {
 	vpC13IDForm = 1 + vpChoice(3)
